@@ -333,7 +333,7 @@ def mk_cfg(desc, lines, invalid=None, origin="gen"):
 
 
 def cfg_cases(rng, tier):
-    n = {"quick": 1500, "thorough": 20000, "search": 1500}[tier]
+    n = {"quick": 1700, "thorough": 20000, "search": 1500}[tier]
     for i in range(n):
         invalid = None
         if i % 6 == 5:
